@@ -91,6 +91,9 @@ def run(ck):
         ver = open(os.path.join(ck.bdir, 'gen', 'VERSION')).read().strip()
         for k in range(N):
             kind, names, rows = fc.gen_alignment(rng)
+            if k % 7 == 3:      # FASTA header lines longer than the 256-byte name field of the block writers
+                names = ['%03d' % i + gen.rand_seq(rng, fc.NAMECH, rng.choice([252, 253, 254, 255, 258, 300, 400])) for i in range(len(names))]
+                ck.count('names longer than 250')
             inp = os.path.join(tmp, 'a%d.fa' % k)
             open(inp, 'w').write(gen.fasta(names, rows, rng.choice([60, 60, 13, 1000])))
             for fmt in ('fasta', 'msf', 'clu'):
